@@ -86,6 +86,7 @@ func (m *EscrowMonitor) OnTx(h *History, o *TxObs) {
 			}
 		}
 	}
+	m.priceCheck(h, "tx/"+method, o.Height, pre, post, slashedByTx, txWitness(h, o))
 	for esc, dels := range pre.Deleg {
 		pa, qa := pre.Accounts[esc], post.Accounts[esc]
 		if pa == nil || qa == nil || slashedByTx[esc] {
@@ -141,51 +142,60 @@ func (m *EscrowMonitor) OnTx(h *History, o *TxObs) {
 // (checked on the staking application's BeginBlock, where evidence is processed);
 // debonding payments are computed at the debonding pool's price (EndBlock).
 func (m *EscrowMonitor) OnStep(h *History, s *StepObs, ctx *cmt.Context) {
+	// Share price may fall in an application step only for accounts slashed in this block phase.
+	taken := map[staking.Address]bool{}
+	for _, ev := range StakingEvents(s.Height, ctx.GetEvents()) {
+		if ev.Escrow != nil && ev.Escrow.Take != nil {
+			taken[ev.Escrow.Take.Owner] = true
+		}
+	}
+	m.priceCheck(h, s.Stage+"/"+s.App, s.Height, ParseStake(s.Pre), ParseStake(s.Post), taken, nil)
 	if !strings.Contains(s.App, "staking") {
 		return
 	}
 	switch s.Stage {
 	case "beginblock":
-		pre := ParseStake(s.Pre)
-		var propEntity *staking.Address
-		if h.Cur != nil {
-			if n := h.Sc.NodeByConsensusAddr(h.Cur.Proposer); n != nil {
-				a := n.Entity.Addr
-				propEntity = &a
-			}
-		}
-		run := map[staking.Address][2]*big.Int{}
+		// Balances at the time of each slash are reconstructed backwards from the state after the
+		// step (evidence is processed last in the staking application's BeginBlock, after fee
+		// disbursement and the proposer reward, which may have changed the active balance).
+		post := ParseStake(s.Post)
+		type take struct{ sa, sd *big.Int }
+		byOwner := map[staking.Address][]take{}
+		var owners []staking.Address
 		for _, ev := range StakingEvents(s.Height, ctx.GetEvents()) {
 			if ev.Escrow == nil || ev.Escrow.Take == nil {
 				continue
 			}
 			t := ev.Escrow.Take
-			if propEntity != nil && *propEntity == t.Owner {
-				continue // the proposer's active pool also received a reward in this step
-			}
-			cur, ok := run[t.Owner]
-			if !ok {
-				acct := pre.Accounts[t.Owner]
-				if acct == nil {
-					continue
-				}
-				cur = [2]*big.Int{acct.Escrow.Active.Balance.ToBigInt(), acct.Escrow.Debonding.Balance.ToBigInt()}
-			}
-			a, d := cur[0], cur[1]
 			sd := t.DebondingAmount.ToBigInt()
 			sa := new(big.Int).Sub(t.Amount.ToBigInt(), sd)
-			// |sa*d - sd*a| < max(a, d): both pools lose the same fraction up to the rounding of one base unit each.
-			lhs := new(big.Int).Sub(new(big.Int).Mul(sa, d), new(big.Int).Mul(sd, a))
-			lhs.Abs(lhs)
-			bound := a
-			if d.Cmp(a) > 0 {
-				bound = d
+			if byOwner[t.Owner] == nil {
+				owners = append(owners, t.Owner)
 			}
-			m.SlashFractionChecks++
-			if sa.Cmp(a) > 0 || sd.Cmp(d) > 0 || (lhs.Cmp(bound) >= 0 && bound.Sign() > 0) {
-				m.Rep.Violation("c15/l2/slash-takes-different-fractions", fmt.Sprintf("slash of %s took %s of active balance %s and %s of debonding balance %s", t.Owner, sa, a, sd, d), map[string]any{"height": s.Height, "params": h.Sc.P})
+			byOwner[t.Owner] = append(byOwner[t.Owner], take{sa, sd})
+		}
+		for _, o := range owners {
+			acct := post.Accounts[o]
+			if acct == nil {
+				continue
 			}
-			run[t.Owner] = [2]*big.Int{new(big.Int).Sub(a, sa), new(big.Int).Sub(d, sd)}
+			a, d := acct.Escrow.Active.Balance.ToBigInt(), acct.Escrow.Debonding.Balance.ToBigInt()
+			ts := byOwner[o]
+			for i := len(ts) - 1; i >= 0; i-- {
+				sa, sd := ts[i].sa, ts[i].sd
+				a, d = new(big.Int).Add(a, sa), new(big.Int).Add(d, sd) // balances right before this slash
+				// |sa*d - sd*a| < max(a, d): both pools lose the same fraction up to the rounding of one base unit each.
+				lhs := new(big.Int).Sub(new(big.Int).Mul(sa, d), new(big.Int).Mul(sd, a))
+				lhs.Abs(lhs)
+				bound := a
+				if d.Cmp(a) > 0 {
+					bound = d
+				}
+				m.SlashFractionChecks++
+				if sa.Sign() < 0 || (lhs.Cmp(bound) >= 0 && bound.Sign() > 0) {
+					m.Rep.Violation("c15/l2/slash-takes-different-fractions", fmt.Sprintf("slash of %s took %s of active balance %s and %s of debonding balance %s", o, sa, a, sd, d), map[string]any{"height": s.Height, "params": h.Sc.P})
+				}
+			}
 		}
 	case "endblock":
 		// Payments made in this step, at the debonding pool's price before the step.
@@ -229,7 +239,9 @@ func (m *EscrowMonitor) OnBlock(h *History, b *Block, txs []*GenTx, ref *BlockRe
 	evs := BlockStakingEvents(b.Height, ref)
 	slashed := map[staking.Address]bool{}
 	epoch := h.View.Epoch
-	epochChanged := epoch != m.lastEpochSeen(h)
+	// The block following the initial height is, "for historic reasons" (abci/state.go EpochChanged),
+	// never treated as an epoch transition by the applications, even if the beacon changes the epoch there.
+	epochChanged := epoch != m.lastEpochSeen(h) && b.Height != h.Sc.Doc.Height+1
 	for _, ev := range evs {
 		if ev.Escrow == nil {
 			continue
@@ -300,32 +312,38 @@ func (m *EscrowMonitor) OnBlock(h *History, b *Block, txs []*GenTx, ref *BlockRe
 			}
 		}
 	}
-	// Share price.
-	if m.prev != nil {
-		for _, a := range snap.SortedAccounts() {
-			pa, qa := m.prev.Accounts[a], snap.Accounts[a]
-			if pa == nil {
-				continue
-			}
-			for i, pools := range [][2]staking.SharePool{{pa.Escrow.Active, qa.Escrow.Active}, {pa.Escrow.Debonding, qa.Escrow.Debonding}} {
-				pb, ps := pools[0].Balance.ToBigInt(), pools[0].TotalShares.ToBigInt()
-				qb, qs := pools[1].Balance.ToBigInt(), pools[1].TotalShares.ToBigInt()
-				if ps.Sign() == 0 || qs.Sign() == 0 {
-					continue
-				}
-				// price fell iff qb/qs < pb/ps
-				if new(big.Int).Mul(qb, ps).Cmp(new(big.Int).Mul(pb, qs)) < 0 {
-					m.PriceDrops++
-					if !slashed[a] {
-						pool := []string{"active", "debonding"}[i]
-						m.Rep.Violation("c15/l2/share-price-fell-without-slash/"+pool, fmt.Sprintf("%s pool of %s: price fell from %s/%s to %s/%s in block %d without a TakeEscrow event", pool, a, pb, ps, qb, qs, b.Height), map[string]any{"height": b.Height, "params": h.Sc.P})
-					}
-				}
-			}
-		}
-	}
+	_ = slashed
 	m.prev = snap
 	m.epochSeen = epoch
 }
 
 func (m *EscrowMonitor) lastEpochSeen(h *History) uint64 { return m.epochSeen }
+
+// priceCheck reports pools whose share price fell between two consecutive
+// observed states although no TakeEscrow event for the account was emitted in between.
+func (m *EscrowMonitor) priceCheck(h *History, where string, height int64, pre, post *StakeSnap, taken map[staking.Address]bool, w map[string]any) {
+	for _, a := range post.SortedAccounts() {
+		pa, qa := pre.Accounts[a], post.Accounts[a]
+		if pa == nil {
+			continue
+		}
+		for i, pools := range [][2]staking.SharePool{{pa.Escrow.Active, qa.Escrow.Active}, {pa.Escrow.Debonding, qa.Escrow.Debonding}} {
+			pb, ps := pools[0].Balance.ToBigInt(), pools[0].TotalShares.ToBigInt()
+			qb, qs := pools[1].Balance.ToBigInt(), pools[1].TotalShares.ToBigInt()
+			if ps.Sign() == 0 || qs.Sign() == 0 {
+				continue // price undefined on one side (pool emptied or just created)
+			}
+			if new(big.Int).Mul(qb, ps).Cmp(new(big.Int).Mul(pb, qs)) < 0 {
+				m.PriceDrops++
+				if !taken[a] {
+					pool := []string{"active", "debonding"}[i]
+					ww := map[string]any{"height": height, "params": h.Sc.P}
+					for k, v := range w {
+						ww[k] = v
+					}
+					m.Rep.Violation("c15/l2/share-price-fell-without-slash/"+pool+"/"+where, fmt.Sprintf("%s pool of %s: price fell from %s/%s to %s/%s (%s, height %d) without a TakeEscrow event", pool, a, pb, ps, qb, qs, where, height), ww)
+				}
+			}
+		}
+	}
+}
